@@ -1,5 +1,6 @@
 import Fips204.Props.C08
 import Fips204.Lemmas.SigRoundTrip
+import Fips204.Lemmas.SigDecodeEncode
 /-!
 # C08 (continued) — encodings are canonical, at full parameters, for every byte string
 
@@ -65,5 +66,22 @@ theorem accepted_hint_sections_are_well_formed (m : Mode) (k : Nat) (omega : Int
 
 /-- non-vacuity: the all-zero ML-DSA-44 hint section (no hints) is accepted -/
 example : ((hintBitUnpack .checked 4 80 (List.replicate 84 0)).toOption.bind id).isSome = true := by decide +kernel
+
+/-- **`hint_bit_unpack ∘ hint_bit_pack = id`**: every 0/1 hint with at most omega ones is decoded back from its encoding
+    (with `hint_section_reencodes_to_the_same_bytes`: the hint codec is a bijection between well-formed hints and accepted sections) -/
+theorem hint_unpack_inverts_hint_pack (m : Mode) (k : Nat) (omega : Int) (h : List Poly) (ho : 0 ≤ omega)
+    (hk : 1 ≤ omega.toNat + k ∧ omega.toNat + k < 256) (hl : h.length = k) (hb : ∀ q ∈ h, Bin q) (hsum : onesAll h ≤ omega.toNat)
+    (y : List Nat) (hp : hintBitPack m false omega h (omega.toNat + k) = .ok y) : hintBitUnpack m k omega y = .ok (some h) :=
+  hintBitUnpack_hintBitPack m k omega h ho hk hl hb hsum y hp
+
+/-- **`sig_decode ∘ sig_encode = id`** for the three parameter sets: an in-range `(c~, z, h)` is encoded to a string of signature
+    length, of bytes, which decodes back to `(c~, z, h)` (with `signature_reencodes_to_the_same_bytes`: a bijection) -/
+theorem signature_decodes_to_what_was_encoded (m : Mode) (p : ParamSet) (hp : p ∈ [ml_dsa_44, ml_dsa_65, ml_dsa_87])
+    (ct : List Nat) (z h : List Poly) (hct : ct.length = p.lambdaDiv4) (hz : Sh p.l z)
+    (hzr : ∀ q ∈ z, ∀ c ∈ q, -(p.gamma1 - 1) ≤ c ∧ c ≤ p.gamma1) (hh : Sh p.k h) (hb : ∀ q ∈ h, Bin q)
+    (hsum : onesAll h ≤ p.omega.toNat) (sig : List Nat) (henc : sigEncode m false p ct z h = .ok sig) :
+    sig.length = p.sigLen ∧ ((∀ b ∈ ct, b < 256) → ∀ b ∈ sig, b < 256) ∧ sigDecode m p sig = .ok (some (ct, z, h)) := by
+  obtain ⟨blz, cfg⟩ := sigCfg_of_mem p hp
+  exact sigEncode_facts m p blz cfg ct z h hct hz hzr hh hb hsum sig henc
 
 end Fips204.Props.C08
